@@ -282,10 +282,19 @@ def check_connect(ck, eng):
           key='EBB3::MIN_VERSION_STRING')
     min_text = minv.value if ok_lit else None
     n_true = n_false = 0
+    from ..ebb3 import EBB3Hooks
+
+    def handshake_hooks():
+        # the device on the port is unknown until it is verified: its reply may be any bytes, so
+        # decoding it may raise UnicodeDecodeError ("non-EBB" reply sequences of the statement)
+        hk = EBB3Hooks(eng, inject=eng.inject, summarised=eng.summarised, exclude='connect')
+        hk.decode_faults = True
+        return hk
     for ts, label, st0 in connect_states():
-        outs = eng.run('connect', ts, st=st0.copy(),
+        outs = eng.run('connect', ts, st=st0.copy(), hooks=handshake_hooks(),
                        overrides={fn.params[1]: Opaque('param:given_name', (), 'str')})
-        outs += eng.run('connect', ts, st=st0.copy(), overrides={fn.params[1]: NONE})
+        outs += eng.run('connect', ts, st=st0.copy(), hooks=handshake_hooks(),
+                        overrides={fn.params[1]: NONE})
         where = '%s from %s, %s' % (q, ts.name, label)
         raised = None
         for o in outs:
